@@ -7,7 +7,10 @@ git -C /repo worktree remove --force $WT 2>/dev/null
 git -C /repo worktree add -q $WT HEAD || exit 2
 git -C $WT apply $D/patch.diff || { echo "patch does not apply"; git -C /repo worktree remove --force $WT; exit 3; }
 cd /verif
+cp evidence/$P.json /tmp/se_$ID.evidence.bak 2>/dev/null
 DASK_REPO=$WT timeout 1500 ./check $P --tier $TIER > /tmp/se_$ID.log 2>&1; RC=$?
+# the run against the mutated tree must not leave its evidence behind
+[ -f /tmp/se_$ID.evidence.bak ] && mv /tmp/se_$ID.evidence.bak evidence/$P.json
 grep -a "VIOLATION\|^\[$P\]\|KNOWN-FINDING" /tmp/se_$ID.log | head -5
 /venv/bin/python harness/extract.py /repo > /dev/null 2>&1
 /venv/bin/python - "$D/meta.json" "$P" "$TIER" "$RC" /tmp/se_$ID.log <<'PY'
